@@ -586,6 +586,13 @@ class SpecEnv(object):
             return b2v(z3.Select(ctx.engine.heap_get(ctx.st, d, "has").z, to_val(k)))
         P["haskey"] = p_haskey
 
+        def p_only_key(ctx, d, k):
+            """the dict has no key other than k"""
+            h = ctx.engine.heap_get(ctx.st, d, "has").z
+            kk = to_val(k)
+            return b2v(h == z3.Store(z3.K(Val, z3.BoolVal(False)), kk, z3.Select(h, kk)))
+        P["only_key"] = p_only_key
+
         def p_unchanged_except(ctx, d, key):
             """every entry of dict d other than `key` is what it was at function entry"""
             m1, h1 = ctx.engine.heap_get(ctx.st, d, "map").z, ctx.engine.heap_get(ctx.st, d, "has").z
